@@ -330,13 +330,10 @@ example : SameUpToCase exPlain exRespelt := by
   simp [SameUpToCase, exPlain, exRespelt, itemsRel, Item.Rel, Call.CaseEq, Call.recase, mkCall]
   decide
 
-example : SameUpToLayout exPlain exCommented := by
-  simp [SameUpToLayout, exPlain, exCommented, itemsRel, Item.Rel, Call.Sim, DocSim, mkCall]
-  decide
-
-example : itemsSpec {} .none exPlain = itemsSpec {} .none exCommented :=
-  C02_layout {} .none _ _ (by
+example : SameUpToLayout exPlain exCommented ∧ itemsSpec {} .none exPlain = itemsSpec {} .none exCommented := by
+  have h : SameUpToLayout exPlain exCommented := by
     simp [SameUpToLayout, exPlain, exCommented, itemsRel, Item.Rel, Call.Sim, DocSim, mkCall]
-    decide)
+    exact ⟨⟨by decide, rfl⟩, by decide⟩
+  exact ⟨h, C02_layout {} .none _ _ h⟩
 
 end Cminx
